@@ -298,30 +298,49 @@ pub fn run_property(prop: Property, make_gens: impl FnOnce(&Ctx) -> Vec<Gen<'sta
     let mut samples: Vec<Value> = vec![];
     let mut counters: BTreeMap<String, u64> = BTreeMap::new();
     let mut per_gen: Vec<Value> = vec![];
+    let stride: u64 = std::env::var("VERIF_STRIDE").ok().and_then(|s| s.parse().ok()).unwrap_or(1);
+    let instrumentation = std::env::var("VERIF_SANITIZER").unwrap_or_else(|_| "none (debug assertions + overflow checks)".into());
     let mut all_viol: Vec<(String, usize, Violation)> = vec![];
     let mut inconclusive: Vec<String> = vec![];
     let mut harness_panics: Vec<String> = vec![];
 
     // flute's filesystem writer prints to stdout; keep our protocol lines clean
-    let saved_stdout = unsafe { libc::dup(1) };
-    unsafe {
+    let saved_stdout = if cfg!(miri) { -1 } else { unsafe { libc::dup(1) } };
+    if !cfg!(miri) { unsafe {
         let devnull = libc::open(b"/dev/null\0".as_ptr() as *const libc::c_char, libc::O_WRONLY);
         if devnull >= 0 && saved_stdout >= 0 {
             libc::dup2(devnull, 1);
             libc::close(devnull);
         }
-    }
+    } }
+    let only_gens: Option<Vec<String>> = std::env::var("VERIF_GENS").ok().map(|s| s.split(',').map(|x| x.trim().to_string()).collect());
     for g in &gens {
+        if let Some(og) = &only_gens {
+            if !og.iter().any(|n| n == g.name) {
+                continue;
+            }
+        }
         let gsw = Stopwatch::start();
-        let results = util::par_cases(g.n, Some(deadline), |i| {
-            util::guarded(|| (g.run)(&ctx, i))
+        // sanitizer / interpreter sub-runs execute a seeded 1-in-stride sample of every generator
+        let sel: Vec<usize> = if stride <= 1 {
+            (0..g.n).collect()
+        } else {
+            let mut v: Vec<usize> = (0..g.n).filter(|i| util::fnv(&format!("{}|{}|{}", ctx.seed, g.name, i)) % stride == 0).collect();
+            if v.is_empty() && g.n > 0 {
+                v.push((ctx.seed as usize) % g.n);
+            }
+            v
+        };
+        let results = util::par_cases(sel.len(), Some(deadline), |k| {
+            util::guarded(|| (g.run)(&ctx, sel[k]))
         });
         let mut g_eval = 0u64;
         let mut g_nontrivial = 0u64;
         let mut g_shapes: HashSet<u64> = HashSet::new();
         let mut g_viol = 0u64;
         let mut g_samples = 0;
-        for (i, r) in results.into_iter().enumerate() {
+        for (k, r) in results.into_iter().enumerate() {
+            let i = sel[k];
             match r {
                 None => not_run += 1,
                 Some(Err(p)) => {
@@ -361,7 +380,7 @@ pub fn run_property(prop: Property, make_gens: impl FnOnce(&Ctx) -> Vec<Gen<'sta
             }
         }
         evaluations += g_eval;
-        per_gen.push(json!({"generator": g.name, "cases_planned": g.n, "cases_run": g_eval,
+        per_gen.push(json!({"generator": g.name, "cases_planned": sel.len(), "cases_in_full_plan": g.n, "cases_run": g_eval,
             "nontrivial": g_nontrivial, "distinct_shapes": g_shapes.len(), "violations_raw": g_viol,
             "wall_s": (gsw.secs()*100.0).round()/100.0}));
     }
@@ -486,6 +505,8 @@ pub fn run_property(prop: Property, make_gens: impl FnOnce(&Ctx) -> Vec<Gen<'sta
     coverage.insert("known_findings_observed".into(), json!(known_hits));
     coverage.insert("violations_total_unlisted".into(), json!(new_total));
     coverage.insert("harness_errors".into(), json!(harness_panics.len()));
+    coverage.insert("instrumentation".into(), json!(instrumentation));
+    coverage.insert("case_stride".into(), json!(stride));
     let ev = json!({
         "property_id": prop.id,
         "tier": tier.name(),
@@ -498,7 +519,10 @@ pub fn run_property(prop: Property, make_gens: impl FnOnce(&Ctx) -> Vec<Gen<'sta
     });
     let evdir = verif_root().join("evidence");
     std::fs::create_dir_all(&evdir).ok();
-    let evpath = evdir.join(format!("{}.json", prop.id));
+    let mut evpath = evdir.join(format!("{}.json", prop.id));
+    if let Some(p) = std::env::var_os("VERIF_EVIDENCE_OUT") {
+        evpath = PathBuf::from(p);
+    }
     std::fs::write(&evpath, serde_json::to_string_pretty(&ev).unwrap()).unwrap();
 
     println!(
